@@ -322,6 +322,7 @@ package objects
 //@   ensures inv(sn)
 //@   ensures[found] removed == old(sn.allocations[allocationKey])
 //@   ensures[unlisted] removed != nil ==> !(allocationKey in sn.allocations)
+//@   ensures[gone] sn.allocations[allocationKey] == nil
 //@   ensures[booked] removed != nil ==> (forall t Key :: rv(sn.availableResource, t) == old(rv(sn.availableResource, t)) + rv(removed.allocatedResource, t))
 //@   ensures[ledger] removed != nil ==> (forall t Key :: rv(sn.allocatedResource, t) == old(rv(sn.allocatedResource, t)) - (removed.foreign ? 0 : rv(removed.allocatedResource, t)) && rv(sn.occupiedResource, t) == old(rv(sn.occupiedResource, t)) - (removed.foreign ? rv(removed.allocatedResource, t) : 0))
 //@   ensures[absent] removed == nil ==> (forall t Key :: rv(sn.availableResource, t) == old(rv(sn.availableResource, t)) && rv(sn.allocatedResource, t) == old(rv(sn.allocatedResource, t)) && rv(sn.occupiedResource, t) == old(rv(sn.occupiedResource, t)))
@@ -1195,3 +1196,54 @@ package objects
 //@   at[apppending] call objects.Queue.incPendingResource#1: assert forall t Key :: rv(sa.pending, t) == clamp64(old(rv(sa.pending, t)) + rv(delta, t))
 //@   ensures[booked] err == nil ==> ncalls(objects.Queue.incPendingResource) == 1
 //@   ensures[refused] err != nil ==> ncalls(objects.Queue.incPendingResource) == 0 && ncalls(objects.Application.addAllocationAskInternal) == 0 && sa.pending == old(sa.pending)
+
+// terminated applications leave the queue and the partition and take no more asks: entering Completed or Failed hands the
+// application to the partition's terminated callback exactly once and drops its remaining asks
+//@ func callbacks$calls(metrics.SchedulerMetrics.IncTotalApplicationsFailed)(ctx context.Context, event *fsm.Event)
+//@   props C10
+//@   sweep
+//@   mode nopanic=off
+//@   at[own] call objects.Application.executeTerminatedCallback#1: assert arg0 == asptr(event.Args[0], Application)
+//@   at[asks] call objects.Application.cleanupAsks#1: assert arg0 == asptr(event.Args[0], Application)
+//@   ensures[leaves] ncalls(objects.Application.executeTerminatedCallback) == 1 && ncalls(objects.Application.cleanupAsks) == 1
+
+//@ func callbacks$calls(metrics.SchedulerMetrics.IncTotalApplicationsCompleted)(ctx context.Context, event *fsm.Event)
+//@   props C10
+//@   sweep
+//@   mode nopanic=off
+//@   at[own] call objects.Application.executeTerminatedCallback#1: assert arg0 == asptr(event.Args[0], Application)
+//@   at[asks] call objects.Application.cleanupAsks#1: assert arg0 == asptr(event.Args[0], Application)
+//@   ensures[leaves] ncalls(objects.Application.executeTerminatedCallback) == 1 && ncalls(objects.Application.cleanupAsks) == 1
+
+// a configured queue that disappears from the configuration is drained together with EVERY managed queue below it: the
+// walk hands the mark to every child (no early exit, none skipped), and each queue marks itself
+//@ func (sq *Queue) MarkQueueForRemoval()
+//@   props C16
+//@   sweep
+//@   mode nopanic=off
+//@   loop 1: exhaustive
+//@   loop 1: each ncalls(objects.Queue.MarkQueueForRemoval) == iter(ncalls(objects.Queue.MarkQueueForRemoval)) + 1
+//@   at[down] call objects.Queue.MarkQueueForRemoval#1: assert arg0 == child
+//@   at[own] call objects.Queue.doRemoveQueue#1: assert arg0 == sq
+//@   ensures[self] old(sq.isManaged) ==> ncalls(objects.Queue.doRemoveQueue) == 1
+
+// the recovery queue never grants submit access, whatever its ancestors allow; otherwise the question goes to the parent
+// with the same user
+//@ func (sq *Queue) CheckSubmitAccess(user security.UserGroup) (allow bool)
+//@   props C17
+//@   sweep
+//@   mode nopanic=off
+//@   at[up] call objects.Queue.CheckSubmitAccess#1: assert arg0 == sq.parent && sq.parent != nil
+//@   at[guardpath] call common.IsRecoveryQueue#1: assert arg0 == sq.QueuePath
+//@   at[guard] call common.IsRecoveryQueue#1 after: assume ret <==> isrecq(sq)
+//@   ensures[recoverynever] isrecq(sq) ==> !allow
+//@ spec abstract isrecq(q *Queue) bool
+
+// asks of an application are ordered by priority and, within one priority, by creation time at full resolution
+//@ func (a *Allocation) LessThan(other *Allocation) (r bool)
+//@   props C19
+//@   sweep
+//@   mode nopanic=off
+//@   at[after] call time.Time.After#1: assert a.priority == other.priority
+//@   at[equal] call time.Time.Equal#1: assert a.priority == other.priority
+//@   ensures[priority] a.priority != other.priority ==> r == (a.priority < other.priority)
